@@ -1,4 +1,4 @@
-SPECIFICATION Spec
+SPECIFICATION RepSpec
 CONSTANTS
   Params = {"p1", "p2"}
   Vals = {"a", "b"}
